@@ -9,7 +9,7 @@
      O ops=<calls> fin=<rng>,<val>,<nbits_total>,<offs>,<storage>
    The decision stream is read off the recorded calls (value of each symbol; qi for the coarse energy; the final VBR
    size; intensity, dual_stereo, lastCodedBands, signalBandwidth as passed to clt_compute_allocation).
-   Usage: c17_hdrenc tie <seed> <nframes>                                                                        */
+   Usage: c17_hdrenc tie <seed> <nframes> | coarse <seed> <ncases> (quant_coarse_energy called directly)                                                                        */
 #ifdef HAVE_CONFIG_H
 #include "config.h"
 #endif
@@ -22,6 +22,7 @@
 #include "celt/laplace.h"
 #include "celt/quant_bands.h"
 #include "celt/rate.h"
+#include "opus_custom.h"
 
 enum { K_BIT, K_UINT, K_BITS, K_ICDF, K_BIN, K_SHRINK };
 typedef struct {
@@ -228,6 +229,77 @@ static void synth(vrng *r, opus_int16 *pcm, int n, int ch, int Fs, int kind, dou
    }
 }
 
+/* ---------------------------------------------------------------- quant_coarse_energy called directly
+   Random band energies, every budget situation (plenty … none), intra / inter, LFE.  The qi the C code derives from
+   the floats BEFORE its budget clamps is recomputed here from the outputs (oldEBands[] gives the coded qi, hence
+   `prev`, hence f = x - prev and qi0 = floor(.5+f) with the decay_bound rule), so the model is fed the pre-clamp
+   decisions and has to reproduce the clamps. */
+static void run_coarse(uint64_t seed, int ncases)
+{
+   static const float beta_coef_[4] = {30147/32768.f, 22282/32768.f, 12124/32768.f, 6554/32768.f};
+   const float beta_intra_ = 4915/32768.f;
+   int err = 0, t;
+   const CELTMode *mode = opus_custom_mode_create(48000, 960, &err);
+   vrng r; r.s = seed * 0x9E3779B97F4A7C15ULL + 31337;
+   for (t = 0; t < ncases; t++) {
+      static unsigned char buf[1300];
+      float eB[42], oldE[42], errv[42], x[42];
+      int C = 1 + (int)vbelow(&r, 2), LM = (int)vbelow(&r, 4), lfe = vchance(&r, 10), intra_req = (int)vbelow(&r, 2);
+      int start = vchance(&r, 25) ? 17 : 0, end = start ? 19 + 2 * (int)vbelow(&r, 2) : (int)(13 + vbelow(&r, 9)), i, c, k;
+      int size = 2 + (int)vbelow(&r, vchance(&r, 60) ? 12 : 160), pre, nbAvail, intra, ndec = 0;
+      ec_enc enc, e0; opus_val32 delayed = 0; float max_decay, prev[2] = {0, 0}, beta;
+      long long qi0[42]; int qc[42]; int nq = 0, first;
+      if (end > 21) end = 21;
+      ec_enc_init(&enc, buf, size);
+      /* use up part of the budget so that every fall-back branch is met at every band position */
+      pre = vchance(&r, 70) ? (int)vbelow(&r, size * 8) : 0;
+      while (ec_tell(&enc) + 16 < pre) __real_ec_enc_bits(&enc, vbelow(&r, 65536), 16);
+      while (ec_tell(&enc) < pre && ec_tell(&enc) + 1 <= size * 8 - 1) __real_ec_enc_bit_logp(&enc, (int)vbelow(&r, 2), 1);
+      nbAvail = size;
+      for (i = 0; i < 42; i++) { oldE[i] = 0; errv[i] = 0; eB[i] = x[i] = (float)((int)vbelow(&r, 31) - 15) + (float)vbelow(&r, 8) * 0.125f - 0.4375f; }
+      if (vchance(&r, 30)) for (i = 0; i < 42; i++) eB[i] = x[i] = (float)((int)vbelow(&r, 7) - 3);
+      e0 = enc;
+      in_frame = 1; phase = 0; nR = 0;
+      quant_coarse_energy(mode, start, end, end, eB, oldE, (opus_uint32)size * 8, errv, &enc, C, LM, nbAvail, intra_req, &delayed, 0, 0, lfe);
+      in_frame = 0;
+      /* what the C code saw */
+      intra = (ec_tell(&e0) + 3 <= size * 8) ? intra_req : 0;
+      beta = intra ? beta_intra_ : beta_coef_[LM];
+      max_decay = 16.f; if (end - start > 10) { float m = .125f * nbAvail; if (m < max_decay) max_decay = m; } if (lfe) max_decay = 3.f;
+      for (i = start; i < end; i++) for (c = 0; c < C; c++) {
+         float xx = x[i + c * 21], f = xx - 0.f - prev[c], q, decay_bound = 0.f - max_decay;     /* oldEBands = 0: MAXG(-28,0) = 0 */
+         int qi = (int)floor(.5f + f);
+         if (qi < 0 && xx < decay_bound) { qi += (int)(decay_bound - xx); if (qi > 0) qi = 0; }
+         qi0[nq++] = qi;
+         q = oldE[i + c * 21] - (0.f + prev[c]);           /* tmp = coef*oldE + prev + q, coef*oldE = 0 */
+         qc[nq - 1] = (int)floor(.5f + q);                 /* the qi the encoder kept */
+         prev[c] = prev[c] + q - beta * q;
+      }
+      printf("I cwrs coarse %d %d %d %d %d %d %u,%u,%u,%d,%d,%u,%u,%u,%u,%d,%d ", start, end, C, LM, lfe, size,
+             e0.storage, e0.end_offs, (unsigned)e0.end_window, e0.nend_bits, e0.nbits_total, e0.offs, e0.rng, e0.val, e0.ext, e0.rem, e0.error);
+      /* decision stream: intra (if coded), then qi0 for every (band, channel) that codes a symbol — the model pops
+         exactly then, so the positions without a symbol are dropped here by matching the recorded calls */
+      first = nR > 0 && R[0].kind == K_BIT && R[0].b == 3;
+      if (first) printf("%s%d", ndec++ ? "," : "", (int)R[0].a);
+      {
+         /* a (band, channel) codes a symbol iff budget - tell >= 1 at that point; replay the tells from the recorded calls */
+         int ri = first ? 1 : 0, tellv;
+         k = 0;
+         for (i = start; i < end; i++) for (c = 0; c < C; c++, k++) {
+            if (ri < nR) { printf("%s%lld", ndec++ ? "," : "", qi0[k]); ri++; }
+         }
+         (void)tellv;
+      }
+      if (!ndec) printf("-");
+      printf("\nO ops=");
+      if (nR == 0) printf("-");
+      for (i = 0; i < nR; i++) { if (i) printf(","); pr_op(&R[i]); }
+      printf(" fin=%u,%u,%d,%u,%u q=", enc.rng, enc.val, enc.nbits_total, enc.offs, enc.storage);
+      for (i = 0; i < nq; i++) printf("%s%d", i ? "," : "", qc[i]);
+      printf("\n");
+   }
+}
+
 int main(int argc, char **argv)
 {
    static const int rates[] = {8000, 12000, 16000, 24000, 48000};
@@ -238,7 +310,8 @@ int main(int argc, char **argv)
    static opus_int16 pcm[2 * 960 * 2];
    static unsigned char pkt[1500];
    vrng r; int cfg, nframes, ncfg;
-   if (argc < 4 || strcmp(argv[1], "tie")) { fprintf(stderr, "usage: c17_hdrenc tie <seed> <nframes>\n"); return 64; }
+   if (argc >= 4 && !strcmp(argv[1], "coarse")) { run_coarse(strtoull(argv[2], NULL, 10), atoi(argv[3])); return 0; }
+   if (argc < 4 || strcmp(argv[1], "tie")) { fprintf(stderr, "usage: c17_hdrenc tie <seed> <nframes> | coarse <seed> <ncases>\n"); return 64; }
    r.s = strtoull(argv[2], NULL, 10) * 0x9E3779B97F4A7C15ULL + 4711; nframes = atoi(argv[3]); ncfg = 160;
    for (cfg = 0; cfg < ncfg; cfg++) {
       int Fs = rates[vbelow(&r, 5)], ch = 1 + (cfg % 2), app = apps[(cfg / 2) % 3], err = 0, f;
